@@ -167,7 +167,14 @@ impl Pool {
             Err(e) => {
                 let mut res = CaseResult::new();
                 if e == "timeout" {
-                    res.verdict = Verdict::Inconclusive("timeout".into());
+                    res.verdict = if prop.timeout_is_violation() {
+                        Verdict::Violation {
+                            class: "hang".into(),
+                            detail: format!("no result within {} s", prop.timeout_s()),
+                        }
+                    } else {
+                        Verdict::Inconclusive("timeout".into())
+                    };
                 } else if e.contains("exit code Some(2)") {
                     res.verdict = Verdict::HarnessError(e);
                 } else {
@@ -377,8 +384,8 @@ fn shrink_sexp(s: &crate::sexp::Sexp) -> Vec<crate::sexp::Sexp> {
     fn go(s: &Sexp, path: &mut Vec<usize>, out: &mut Vec<(Vec<usize>, Sexp)>, depth: usize) {
         if let Sexp::List(v) = s {
             // drop an element of a nested list (facts, actions, arguments of seq)
-            if depth >= 1 && v.len() > 1 {
-                for i in 0..v.len() {
+            if v.len() > 1 {
+                for i in (if depth == 0 { 1 } else { 0 })..v.len() {
                     if matches!(v[i], Sexp::List(_)) && v.iter().filter(|x| matches!(x, Sexp::List(_))).count() > 1 {
                         let mut w = v.clone();
                         w.remove(i);
@@ -440,6 +447,8 @@ struct Agg {
     inconclusive: BTreeMap<String, u64>,
     harness: Vec<String>,
     violations: Vec<(Case, String, String)>,
+    known_hits: BTreeMap<String, u64>,
+    unknown: u64,
     samples: Vec<Value>,
 }
 
@@ -463,8 +472,12 @@ pub fn batch(prop: &dyn Property, opts: &BatchOpts) -> i32 {
         inconclusive: BTreeMap::new(),
         harness: Vec::new(),
         violations: Vec::new(),
+        known_hits: BTreeMap::new(),
+        unknown: 0,
         samples: Vec::new(),
     }));
+    let known_all = load_known();
+    let known_ref: &[Known] = &known_all;
     println!(
         "egsim batch property={} tier={:?} VERIF_SEED={} cases<={} wall<={}s workers={}",
         prop.id(),
@@ -523,9 +536,19 @@ pub fn batch(prop: &dyn Property, opts: &BatchOpts) -> i32 {
                             a.harness.push(format!("seed {}: {w}", case.seed));
                         }
                         Verdict::Violation { class, detail } => {
-                            a.violations.push((case.clone(), class.clone(), detail.clone()));
-                            if a.violations.len() >= 40 {
-                                stop.store(true, Ordering::Relaxed);
+                            // a recorded finding must not cut the exploration short
+                            if let Some(k) = match_known(known_ref, prop.id(), class, detail) {
+                                let n = a.known_hits.entry(k.what.clone()).or_insert(0);
+                                *n += 1;
+                                if *n <= 2 {
+                                    a.violations.push((case.clone(), class.clone(), detail.clone()));
+                                }
+                            } else {
+                                a.violations.push((case.clone(), class.clone(), detail.clone()));
+                                a.unknown += 1;
+                                if a.unknown >= 40 {
+                                    stop.store(true, Ordering::Relaxed);
+                                }
                             }
                         }
                     }
@@ -543,7 +566,7 @@ pub fn batch(prop: &dyn Property, opts: &BatchOpts) -> i32 {
     }
     let wall_s = t0.elapsed().as_secs_f64();
     // ---- violations: group by class, minimise one per class, classify
-    let known = load_known();
+    let known = known_all.clone();
     let mut exit = 0;
     let mut reported: Vec<Value> = Vec::new();
     let mut by_class: BTreeMap<String, Vec<(Case, String)>> = BTreeMap::new();
@@ -682,7 +705,7 @@ pub fn batch(prop: &dyn Property, opts: &BatchOpts) -> i32 {
             "counters": other,
             "inconclusive": a.inconclusive,
             "harness_errors": a.harness.len(),
-            "known_findings_seen": reported.iter().filter(|r| r.get("known").is_some()).count(),
+            "known_findings_seen": a.known_hits,
             "reported": reported,
             "real_vs_stub": prop.real_vs_stub(),
         },
